@@ -12,7 +12,7 @@ open MosnVerif.Drive MosnVerif.Drive.Downstream MosnVerif.Model.Downstream MosnV
 
 def labelsFor (s : S) : List Label :=
   let ks := List.range s.streams.length
-  [Label.work, .perTryFire, .globalFire, .downReset .StreamConnectionTermination, .connClose] ++
+  [Label.work, .perTryFire, .globalFire, .downReset .StreamConnectionTermination, .connClose, .terminate 418] ++
   (if s.failNext.length < 2 then [.poolFail .overflow, .poolFail .connfail] else []) ++
   (if s.hostsGone then [] else [.hostsGone]) ++
   ks.flatMap (fun k =>
@@ -30,6 +30,7 @@ def labelTok : Label → String
   | .globalFire => "GT"
   | .downReset _ => "DR"
   | .connClose => "CC"
+  | .terminate code => s!"TM{code}"
 
 /-- extra per-state checks besides `inv`: a finished exchange has a classified outcome; a parked worker of a two-way
 request can be completed by the global timer -/
